@@ -454,6 +454,169 @@ func extractFacts(repo string) (string, error) {
 	}
 	facts["httpRegexes"] = regexes
 
+	// 10b. every stoppable timer is stopped on the branches that leave its select without the timer having fired
+	timerStops := map[string][]string{}
+	for _, e := range [][3]string{
+		{"retrypolicy/retryexecutor.go", "executor", "Apply"}, {"hedgepolicy/hedgeexecutor.go", "executor", "Apply"},
+		{"bulkhead/bulkhead.go", "bulkhead", "AcquirePermitWithMaxWait"}, {"ratelimiter/ratelimiter.go", "rateLimiter", "AcquirePermits"},
+		{"ratelimiter/ratelimiter.go", "rateLimiter", "acquirePermitsWithMaxWait"}, {"timeout/timeoutexecutor.go", "executor", "Apply"},
+	} {
+		fd := fx.fn(e[0], e[1], e[2])
+		if fd == nil {
+			continue
+		}
+		key := e[0] + ":" + e[1] + "." + e[2]
+		deferred := false
+		ast.Inspect(fd.Body, func(n ast.Node) bool {
+			if d, ok := n.(*ast.DeferStmt); ok && strings.HasSuffix(srcOf(d.Call.Fun), "imer.Stop") {
+				deferred = true
+			}
+			return true
+		})
+		out := []string{}
+		idx := 0
+		ast.Inspect(fd.Body, func(n ast.Node) bool {
+			sel, ok := n.(*ast.SelectStmt)
+			if !ok {
+				return true
+			}
+			hasTimer := false
+			allStop := true
+			for _, c := range sel.Body.List {
+				cc := c.(*ast.CommClause)
+				if cc.Comm != nil && strings.Contains(srcOf(cc.Comm), "timer.C") {
+					hasTimer = true
+					continue
+				}
+				stops := false
+				for _, st := range cc.Body {
+					if strings.Contains(srcOf(st), "timer.Stop()") {
+						stops = true
+					}
+				}
+				if !stops {
+					allStop = false
+				}
+			}
+			if hasTimer {
+				switch {
+				case deferred:
+					out = append(out, fmt.Sprintf("select%d deferred-stop", idx))
+				case allStop:
+					out = append(out, fmt.Sprintf("select%d stopped-on-other-branches", idx))
+				default:
+					out = append(out, fmt.Sprintf("select%d NOT-STOPPED", idx))
+				}
+			}
+			idx++
+			return true
+		})
+		// the timeout's AfterFunc timer: stopped by the main path
+		if e[0] == "timeout/timeoutexecutor.go" {
+			if strings.Contains(srcOf(fd.Body), "timer.Stop()") {
+				out = append(out, "afterfunc stopped-by-main-path")
+			} else {
+				out = append(out, "afterfunc NOT-STOPPED")
+			}
+		}
+		timerStops[key] = out
+	}
+	facts["timerStops"] = timerStops
+
+	// 11. does the cancel function returned by MergeContexts end the watcher it started?
+	mergeStops := true
+	if fd := fx.fn("internal/util/util.go", "", "MergeContexts"); fd != nil {
+		stopName, spawns, goSelectsOwn := "", false, false
+		var retLit *ast.FuncLit
+		ast.Inspect(fd.Body, func(n ast.Node) bool {
+			switch v := n.(type) {
+			case *ast.AssignStmt:
+				if len(v.Lhs) == 1 && len(v.Rhs) == 1 {
+					if c, ok := v.Rhs[0].(*ast.CallExpr); ok && srcOf(c.Fun) == "context.AfterFunc" {
+						stopName = srcOf(v.Lhs[0])
+						spawns = true
+					}
+				}
+			case *ast.GoStmt:
+				spawns = true
+				// a goroutine that also waits on the merged context itself ends when that context is cancelled
+				ast.Inspect(v, func(m ast.Node) bool {
+					if cc, ok := m.(*ast.CommClause); ok && cc.Comm != nil && strings.Contains(srcOf(cc.Comm), "ctx.Done()") {
+						goSelectsOwn = true
+					}
+					return true
+				})
+			case *ast.ReturnStmt:
+				if len(v.Results) == 2 {
+					if fl, ok := v.Results[1].(*ast.FuncLit); ok {
+						retLit = fl
+					}
+				}
+			}
+			return true
+		})
+		if spawns {
+			mergeStops = goSelectsOwn
+			if stopName != "" && retLit != nil {
+				ast.Inspect(retLit, func(n ast.Node) bool {
+					if c, ok := n.(*ast.CallExpr); ok && srcOf(c.Fun) == stopName {
+						mergeStops = true
+					}
+					return true
+				})
+			}
+		}
+	} else {
+		mergeStops = false
+	}
+	facts["mergeReleaseStopsWatcher"] = mergeStops
+
+	// 12. shape of doRequest: previous response closed before the next attempt; context released when the body is closed
+	closesPrev, releaseOnClose := false, false
+	if fd := fx.fn("failsafehttp/http.go", "", "doRequest"); fd != nil {
+		lastVar := ""
+		seenReq := false
+		uncondDefer := false
+		wraps := false
+		ast.Inspect(fd.Body, func(n ast.Node) bool {
+			switch v := n.(type) {
+			case *ast.AssignStmt:
+				if len(v.Lhs) == 1 && len(v.Rhs) == 1 {
+					if c, ok := v.Rhs[0].(*ast.CallExpr); ok && srcOf(c.Fun) == "exec.LastResult" {
+						lastVar = srcOf(v.Lhs[0])
+					}
+					if srcOf(v.Lhs[0]) == "resp.Body" && strings.Contains(srcOf(v.Rhs[0]), "cancelOnCloseBody{") && strings.Contains(srcOf(v.Rhs[0]), "cancel: cancel") {
+						wraps = true
+					}
+				}
+			case *ast.CallExpr:
+				if srcOf(v.Fun) == "reqFn" {
+					seenReq = true
+				}
+				if lastVar != "" && srcOf(v.Fun) == lastVar+".Body.Close" && !seenReq {
+					closesPrev = true
+				}
+			case *ast.DeferStmt:
+				if srcOf(v.Call.Fun) == "cancel" {
+					uncondDefer = true
+				}
+			}
+			return true
+		})
+		closeCancels := false
+		if cd := fx.fn("failsafehttp/http.go", "cancelOnCloseBody", "Close"); cd != nil {
+			ast.Inspect(cd.Body, func(n ast.Node) bool {
+				if c, ok := n.(*ast.CallExpr); ok && srcOf(c.Fun) == "b.cancel" {
+					closeCancels = true
+				}
+				return true
+			})
+		}
+		releaseOnClose = wraps && closeCancels && !uncondDefer
+	}
+	facts["httpClosesPreviousResponse"] = closesPrev
+	facts["httpReleaseOnBodyClose"] = releaseOnClose
+
 	if len(fx.errs) > 0 {
 		facts["errors"] = fx.errs
 	}
@@ -477,6 +640,12 @@ func extractFacts(repo string) (string, error) {
 	}
 	sb.WriteString("/-- numeric gRPC codes in `retryableStatusCodes`, sorted -/\n")
 	sb.WriteString("def grpcRetryableCodes : List Nat := [" + strings.Join(gc, ", ") + "]\n\n")
+	sb.WriteString("/-- the cancel function returned by `MergeContexts` ends the watcher it started -/\n")
+	sb.WriteString(fmt.Sprintf("def mergeReleaseStopsWatcher : Bool := %v\n\n", mergeStops))
+	sb.WriteString("/-- `doRequest` closes the previous attempt's response before the next attempt -/\n")
+	sb.WriteString(fmt.Sprintf("def httpClosesPreviousResponse : Bool := %v\n\n", closesPrev))
+	sb.WriteString("/-- a response's per-attempt context is released when its body is closed (not when the attempt returns) -/\n")
+	sb.WriteString(fmt.Sprintf("def httpReleaseOnBodyClose : Bool := %v\n\n", releaseOnClose))
 	sb.WriteString("end Failsafe.Generated.Facts\n")
 	if len(fx.errs) > 0 {
 		return sb.String(), fmt.Errorf("%s", strings.Join(fx.errs, "; "))
